@@ -12,6 +12,7 @@
 # You should have received a copy of the GNU Lesser General Public
 # License along with this library.  If not, see <http://www.gnu.org/licenses/>.
 
+import re
 import token
 import ast
 import warnings
@@ -128,9 +129,21 @@ def is_lambda(src: str):
     return False
 
 
+def _splitlines(source: str):
+    """Split at the line boundaries of the Python tokenizer only
+
+    ``str.splitlines`` also splits at form feeds and other characters
+    that can appear inside string literals.
+    """
+    lines = re.split("\r\n|\r|\n", source)
+    if lines and not lines[-1]:
+        lines.pop()
+    return lines
+
+
 def remove_decorator(source: str):
     """Remove decorators from function definition"""
-    lines = source.splitlines()
+    lines = _splitlines(source)
     atok = asttokens.ASTTokens(source, parse=True)
 
     for node in ast.walk(atok.tree):
@@ -151,7 +164,7 @@ def remove_decorator(source: str):
 def replace_funcname(source: str, name: str):
     """Replace function name"""
 
-    lines = source.splitlines()
+    lines = _splitlines(source)
     atok = asttokens.ASTTokens(source, parse=True)
 
     for node in ast.walk(atok.tree):
